@@ -764,6 +764,7 @@ pub fn supervise(p: &'static dyn Property, tier: Tier, replay_only: Option<&str>
     let mut generated = 0u64;
     let mut discards: BTreeMap<String, u64> = BTreeMap::new();
     let mut labels: BTreeMap<String, u64> = BTreeMap::new();
+    let mut discard_labels: BTreeMap<String, u64> = BTreeMap::new();
     let mut counts: BTreeMap<String, u64> = BTreeMap::new();
     let mut nontrivial: BTreeSet<u64> = BTreeSet::new();
     let mut distinct: BTreeSet<u64> = BTreeSet::new();
@@ -781,6 +782,9 @@ pub fn supervise(p: &'static dyn Property, tier: Tier, replay_only: Option<&str>
         if let Some(d) = &r.cx.discard {
             *discards.entry(d.clone()).or_insert(0) += 1;
             if r.cx.fails.is_empty() {
+                for l in &r.cx.labels {
+                    *discard_labels.entry(l.clone()).or_insert(0) += 1;
+                }
                 continue;
             }
         }
@@ -869,6 +873,7 @@ pub fn supervise(p: &'static dyn Property, tier: Tier, replay_only: Option<&str>
             "labels": labels,
             "counters": counts,
             "discards": discards,
+            "labels_of_discarded_cases": discard_labels,
             "known_finding_hits": known_hits,
             "replayed_files": replayed,
             "aborted_cases": aborted_cases.len(),
